@@ -527,6 +527,12 @@ func (m *ScriptEVM) HolderCall(ctx sdk.Context, c, holder common.Address, call s
 		m.setBal(ctx, c, holder, new(big.Int).Sub(b, amt))
 		m.setSup(ctx, c, new(big.Int).Sub(m.Sup(ctx, c), amt))
 		return mk(holder, zero), false
+	case "approve":
+		// OpenZeppelin _approve: reverts for the zero spender, moves nothing, emits Approval(owner, spender, value)
+		if to == zero {
+			return nil, true
+		}
+		return []*ethtypes.Log{{Address: c, Topics: []common.Hash{approvalSig, common.BytesToHash(holder.Bytes()), common.BytesToHash(to.Bytes())}, Data: word(amt)}}, false
 	}
 	return nil, true
 }
